@@ -27,6 +27,7 @@ VARIABLES l, viols, done,
           stopped,   \* containers that have been stopped (C09: they never hold resources again)
           broken,    \* currently broken (predicate, witness) pairs -- for attribution to the breaking step
           mems0,     \* memory nodes a container had when it was created (C12)
+          topo,      \* CPU topology of the world (from the reset line)
           excused    \* live containers that lost their allocation in a bulk re-allocation (Sync/Reconfigure) while the
                      \* requested CPU exceeded half of the capacity: a failed allocation under exhaustion is not a violation
 
@@ -34,7 +35,7 @@ Trace == ndJsonDeserialize(IOEnv.TRACE_FILE)
 N     == Len(Trace)
 E     == Trace[l]
 
-lvars == <<vars, l, viols, done, world, pol, mem, lay, pristine, stopped, broken, mems0, excused>>
+lvars == <<vars, l, viols, done, world, pol, mem, lay, pristine, stopped, broken, mems0, excused, topo>>
 
 Has(r, f) == f \in DOMAIN r
 SetOf(s)  == {s[i] : i \in DOMAIN s}
@@ -222,7 +223,7 @@ SigOf(pw) ==
             (IF E.err THEN "left-by-failed-" \o E.ev ELSE "after-" \o StepSig)
        ELSE "after-" \o StepSig
 
-StateViols == C05State \cup (IF IsTA THEN TAState ELSE BalloonState(pol', ctrs', rt', rtlive', world')) \cup C04State \cup C09State
+StateViols == C05State \cup (IF IsTA THEN TAState ELSE BalloonState(pol', ctrs', rt', rtlive', world', topo)) \cup C04State \cup C09State
 NewViols == {V(pw[1], SigOf(pw), pw[2]) : pw \in StateViols \ broken}
 
 -----------------------------------------------------------------------------
@@ -252,7 +253,7 @@ TrReset ==
        ELSE /\ world' = WorldOf(E) /\ pol' = E.st.pol /\ mem' = E.st.mem /\ lay' = LayoutOf(E.memnodes) /\ pristine' = E.st.pol
     /\ pods' = {} /\ ctrs' = <<>> /\ req' = <<>> /\ pend' = {} /\ rt' = <<>> /\ rtlive' = {} /\ residue' = {}
     /\ reply' = Reply("reset", None, FALSE, <<>>, <<>>, <<>>)
-    /\ stopped' = {} /\ broken' = {} /\ mems0' = <<>> /\ excused' = {}
+    /\ stopped' = {} /\ broken' = {} /\ mems0' = <<>> /\ excused' = {} /\ topo' = SetOf(Get(E, "topo", <<>>))
     /\ l' = l + 1 /\ UNCHANGED <<viols, done>>
 
 \* a request whose post-state was logged
@@ -260,7 +261,7 @@ TrStep ==
     /\ E.ev # "reset" /\ ~Has(E, "hang") /\ Has(E, "st")
     /\ ctrs' = CtrsOf(E.st) /\ pods' = SetOf(E.st.pods) /\ pend' = SetOf(E.st.pend)
     /\ req' = [c \in DOMAIN ctrs' |-> NoReq] /\ residue' = {}
-    /\ pol' = E.st.pol /\ mem' = E.st.mem /\ UNCHANGED lay
+    /\ pol' = E.st.pol /\ mem' = E.st.mem /\ UNCHANGED <<lay, topo>>
     /\ world' = IF E.ev = "Reconfigure" /\ Ok THEN CfgWorld(world, E.config) ELSE world
     /\ pristine' = IF E.ev = "Reconfigure" /\ Ok /\ Quiet(ctrs') THEN E.st.pol ELSE pristine
     /\ reply' = Reply(E.ev, Get(E, "c", None), E.err, <<>>, <<>>, <<>>)
@@ -294,20 +295,20 @@ TrNoState ==
     /\ viols' = viols \o SetToSeq(
           (IF Has(E, "hang") THEN {V("Act_Returns", "handler-did-not-return-" \o E.ev, E.ev)} ELSE C14Step))
     /\ l' = l + 1
-    /\ UNCHANGED <<vars, done, world, pol, mem, lay, pristine, stopped, broken, mems0, excused>>
+    /\ UNCHANGED <<vars, done, world, pol, mem, lay, pristine, stopped, broken, mems0, excused, topo>>
 
 Finish ==
     /\ l = N + 1 /\ ~done
     /\ ndJsonSerialize(IOEnv.VIOL_FILE, viols)
     /\ PrintT("CONSUMED " \o ToString(l - 1))
     /\ done' = TRUE
-    /\ UNCHANGED <<vars, l, viols, world, pol, mem, lay, pristine, stopped, broken, mems0, excused>>
+    /\ UNCHANGED <<vars, l, viols, world, pol, mem, lay, pristine, stopped, broken, mems0, excused, topo>>
 
 TraceInit ==
     /\ l = 1 /\ viols = <<>> /\ done = FALSE
     /\ world = [policy |-> "none", pincpu |-> TRUE, pinmemory |-> TRUE, prefershared |-> FALSE]
     /\ pol = <<>> /\ mem = [zone |-> <<>>, size |-> <<>>] /\ lay = [nodes |-> {}, type |-> <<>>, cap |-> <<>>, normal |-> {}]
-    /\ pristine = <<>> /\ stopped = {} /\ broken = {} /\ mems0 = <<>> /\ excused = {}
+    /\ pristine = <<>> /\ stopped = {} /\ broken = {} /\ mems0 = <<>> /\ excused = {} /\ topo = {}
     /\ pods = {} /\ ctrs = <<>> /\ req = <<>> /\ pend = {} /\ rt = <<>> /\ rtlive = {} /\ residue = {}
     /\ reply = Reply("Init", None, FALSE, <<>>, <<>>, <<>>)
 
